@@ -27,3 +27,26 @@ package node
 //@   props C15
 //@   ensures gate: r <==> maplen(s.workers) < s.Max
 
+
+//@ func (s *Supervisor) CheckPool() (r bool)
+//@   trusted re-checks the pool through the machine API (NormalizingPool, PoolReady mutations)
+
+// Pool configuration: Min is capped by Max, the per-client limit defaults to Max.
+//@ func (s *Supervisor) SetPool(min, max, warm, maxPerClient int)
+//@   props C15
+//@   assigns s.Min, s.Max, s.Warm, s.MaxClientWorkers
+//@   ensures  capped: s.Min == (max < min ? max : min) && s.Max == max && s.Min <= s.Max && s.Warm == warm
+//@   ensures  client: s.MaxClientWorkers == (maxPerClient == 0 ? max : maxPerClient)
+
+// Worker filters: exactly the tracked workers with the asked property.
+//@ func (s *Supervisor) initingWorkers() (ret []*workerInfo)
+//@   props C15
+//@   requires nn: forall k string :: has(s.workers, k) ==> s.workers[k] != nil
+//@   ensures def: forall w *workerInfo :: mem(ret, w) <==> (exists k string :: has(s.workers, k) && s.workers[k] == w && w.rpc == nil)
+//@   loop 1 invariant def: forall w *workerInfo :: mem(ret, w) <==> (exists k string :: visited1[k] && s.workers[k] == w && w.rpc == nil)
+
+//@ func (s *Supervisor) rpcWorkers() (ret []*workerInfo)
+//@   props C15
+//@   requires nn: forall k string :: has(s.workers, k) ==> s.workers[k] != nil
+//@   ensures def: forall w *workerInfo :: mem(ret, w) <==> (exists k string :: has(s.workers, k) && s.workers[k] == w && w.rpc != nil && w.rpc.NetMach != nil)
+//@   loop 1 invariant def: forall w *workerInfo :: mem(ret, w) <==> (exists k string :: visited1[k] && s.workers[k] == w && w.rpc != nil && w.rpc.NetMach != nil)
